@@ -924,6 +924,15 @@ def find_replace(
         template_replacement = textwrap.dedent(template_replacement)
         template_replacement = textwrap.indent(template_replacement, " " * indentation)
 
+        # If the match starts its line, the following lines of the replacement belong at the same column
+        line_start = source.rfind("\n", 0, range_start) + 1
+        column = range_start - line_start
+        if column > indentation and not source[line_start:range_start].strip():
+            first_line, *other_lines = template_replacement.splitlines(keepends=True) or [""]
+            template_replacement = first_line + textwrap.indent(
+                "".join(other_lines), " " * (column - indentation)
+            )
+
         item = [replacement_range, template_replacement]
         if transaction is not None:
             item.append(transaction)
